@@ -22,6 +22,8 @@ import sys
 
 sys.path.insert(0, os.path.dirname(os.path.dirname(os.path.abspath(__file__))))
 import common  # noqa: E402
+import gen_c05  # noqa: E402
+import translate  # noqa: E402
 
 CHILD = os.path.join(common.ROOT, "harness", "impl", "c05_child.py")
 KEY_F23 = "c05:crash-inside-func-dir-rmtree-after-func_code-unlink:stale-entries-served-after-source-change"
@@ -49,7 +51,10 @@ def write_mods(base):
         d = os.path.join(base, "v%d" % v)
         os.makedirs(d, exist_ok=True)
         with open(os.path.join(d, "vmod.py"), "w", encoding="utf-8") as f:
-            f.write("CALLS = []\nSOURCES = %r\n%s" % (srcs, srcs[v]))
+            f.write("from vhelp import CALLS\nSOURCES = %r\n%s" % (srcs, srcs[v]))
+        with open(os.path.join(d, "vhelp.py"), "w") as f:
+            f.write("import threading\n\n\nclass _Calls(list):\n    def append(self, x):\n"
+                    "        list.append(self, (threading.get_ident(), x))\n\n\nCALLS = _Calls()\n")
     return base
 
 
@@ -93,8 +98,8 @@ P_RE = [
     (re.compile(r"^joblib/vmod/f/K(\d+)$"), lambda m: (6, int(m.group(1)), 0)),
     (re.compile(r"^joblib/vmod/f/K(\d+)/output\.pkl$"), lambda m: (7, int(m.group(1)), 0)),
     (re.compile(r"^joblib/vmod/f/K(\d+)/metadata\.json$"), lambda m: (8, int(m.group(1)), 0)),
-    (re.compile(r"^joblib/vmod/f/K(\d+)/output\.pkl\.T(\d+)$"), lambda m: (9, int(m.group(1)), -int(m.group(2)))),
-    (re.compile(r"^joblib/vmod/f/K(\d+)/metadata\.json\.T(\d+)$"), lambda m: (10, int(m.group(1)), -int(m.group(2)))),
+    (re.compile(r"^joblib/vmod/f/K(\d+)/output\.pkl\.T(\d+_\d+)$"), lambda m: (9, int(m.group(1)), m.group(2))),
+    (re.compile(r"^joblib/vmod/f/K(\d+)/metadata\.json\.T(\d+_\d+)$"), lambda m: (10, int(m.group(1)), m.group(2))),
 ]
 
 
@@ -103,8 +108,9 @@ def pcode(p, pidmap):
         m = rx.match(p)
         if m:
             c = fn(m)
-            if c[2] < 0:  # a pid: translate to the model's writer id
-                return (c[0], c[1], pidmap.get(-c[2], 900000 + (-c[2])))
+            if isinstance(c[2], str):  # "<pid>_<thread id>": translate to the model's writer id
+                pid = int(c[2].split("_")[0])
+                return (c[0], c[1], pidmap.get(c[2], pidmap.get(pid, 900000 + pid)))
             return c
     return (99, 0, 0)
 
@@ -547,6 +553,22 @@ def run_one_workload(env, name, wl, quick):
     return prep, crs, rcb
 
 
+def source_order_tie(ctx):
+    """regenerate coq/Gen/T_store_ops.v from the live source and check it against the lists the model interprets.
+    Returns 'ok' | 'translator rejected ...' | 'order differs ...'; the behavioural tie decides in the last two cases."""
+    try:
+        gen_c05.generate()
+    except (translate.TranslateError, SyntaxError, OSError) as e:
+        ctx.note("gen_c05: translator rejected _store_backends.py (%s); source-order tie unavailable, behavioural tie only" % e)
+        return "translator rejected the source: %s" % e
+    ok, log = ctx.coq_build(["Proofs/FsModelGen.vo"])
+    if not ok:
+        ctx.note("the order of store primitives regenerated from the source differs from the model's statement lists "
+                 "(Proofs/FsModelGen.v no longer checks); the behavioural tie decides")
+        return "order differs from the model"
+    return "ok"
+
+
 def run(ctx):
     quick = ctx.tier == "quick"
     env = Env(ctx)
@@ -561,6 +583,7 @@ def run(ctx):
         "path-based stdlib branch; harness/impl/c05_child.py; canonicalisation of paths/outcomes in harness/props/c05.py",
         "writer ids (thread id, pid) of different processes differ; sources are ASCII except in the F24 witness",
     ]
+    gen_tie = source_order_tie(ctx)
     proofs_ok = ctx.standard_proof_stage("C05", extra_targets=["Model/FsShow.vo"])
     wls = workloads()
     names = list(wls)
@@ -641,6 +664,7 @@ def run(ctx):
         "crash_runs": n_crash, "torn_runs": n_torn, "read_back_processes": n_crash * 6, "crash_runs_per_workload": dist,
         "model_evaluations": len(vals),
         "disagreements": len(disagreements),
+        "source_order_tie": gen_tie,
         "trusted_base": trusted,
         "exhaustive": "every operation index of every listed workload trace",
     }, assumptions=[
